@@ -25,6 +25,11 @@ def rpath(r, maxlen=8, allow_slash=True):
     # long names with dozens of characters that need escaping (decided from the path itself: the random stream stays as it was)
     if sum(map(ord, p)) % 11 == 0:
         p = p * (5 + len(p) % 20)
+    # names that end (or begin) like OpenPGP armor: a line ending in five dashes is an entry, not armor
+    elif sum(map(ord, p)) % 13 == 0:
+        p = p + '-----'
+    elif sum(map(ord, p)) % 13 == 1:
+        p = '-----' + p.replace('/', '_') + '-----'
     return p
 
 
